@@ -700,16 +700,19 @@ class BrownianInterval(brownian_base.BaseBrownian, _Interval):
         # For safety we then make this a bit smaller by multiplying by 0.8.
         piece_length = self._tree_dt * cache_size * 0.8
 
-        def _set_points(interval):
+        # Iterative (explicit stack) rather than recursive: the tree built up by sequential queries is a long chain,
+        # and recursing along it raises RecursionError. Intervals are visited in the same order as the recursion
+        # would (an interval, then everything in its left child, then everything in its right child).
+        stack = [self]
+        while len(stack):
+            interval = stack.pop()
             start = interval._start
             end = interval._end
             if end - start > piece_length:
                 midway = (end + start) / 2
                 interval._loc(start, midway)
-                _set_points(interval._left_child)
-                _set_points(interval._right_child)
-
-        _set_points(self)
+                stack.append(interval._right_child)
+                stack.append(interval._left_child)
 
     def __repr__(self):
         if self._dt is None:
